@@ -47,6 +47,7 @@ Proof.
   - destruct (lookup src (cslots g)); thread_only I Hth Hpc Hm.
   - destruct (lookup a (cslots g)); [thread_only I Hth Hpc Hm|].
     destruct (lookup b (cslots g)); thread_only I Hth Hpc Hm.
+  - destruct (lookup src (cslots g)); thread_only I Hth Hpc Hm.
 Qed.
 
 Lemma step_FLock : forall g t th p c g',
@@ -157,7 +158,7 @@ Proof.
   assert (Hdone : h_done hk = (h_refs hk =? 0) && (h_calls hk =? 0))
     by (destruct (inv_hook g (invH g I) cur hk Hx); auto).
   unfold cwalk_nil in Hm |- *.
-  destruct k as [dst| |recv| |wdst|c2|h1]; unfold same_second in Hm |- *; try destruct c2 as [c2|];
+  destruct k as [dst| |recv| |wdst|c2|h1|]; unfold same_second in Hm |- *; try destruct c2 as [c2|];
   eapply (G1 g _ t th _ cur hk hk c cl (cl_mu None (cl_h None cl)) I Hth); g1_side Hpc Hx Hc;
   try (unfold client_ok; cbn; exact Htg);
   try (unfold wtok; cbn; lia);
@@ -267,11 +268,11 @@ Ltac g1h_side Hpc Hx :=
       rewrite ?(eqb_neq_false _ _ Hne); auto
   end.
 
-Lemma step_CallFin : forall g t th h g',
-  Inv g -> nth_error (threads g) t = Some th -> t_pc th = CallFin h ->
+Lemma step_CallFin : forall g t th h rr g',
+  Inv g -> nth_error (threads g) t = Some th -> t_pc th = CallFin h rr ->
   step true g t = Some g' -> misuse g' = false -> Inv g'.
 Proof.
-  intros g t th h g' I Hth Hpc Hs Hm. unfold step in Hs. rewrite Hth, Hpc in Hs.
+  intros g t th h rr g' I Hth Hpc Hs Hm. unfold step in Hs. rewrite Hth, Hpc in Hs.
   destruct (get_hook g h) as [hk|] eqn:Hx; [|discriminate].
   destruct (h_mu hk) eqn:Hmu; [discriminate|].
   destruct (inv_hook g (invH g I) h hk Hx) as [O1 O2 O3 O4 O5 O6 O7].
@@ -330,7 +331,9 @@ Proof.
   destruct (get_client g c) as [cl|] eqn:Hc; [|discriminate].
   destruct (c_mu cl) eqn:Hcmu; [discriminate|]. inversion Hs; subst g'; clear Hs.
   unfold clock_step in Hm |- *.
-  destruct k as [dst| |recv| |wdst|c2|h1].
+  destruct k as [dst| |recv| |wdst|c2|h1|].
+  8: { destruct (c_h cl) as [h|] eqn:Hh; [|thread_only I Hth Hpc Hm].
+       g0_walk I Hth Hpc Hc (cl_mu (Some t) cl). }
   - destruct (c_released cl) eqn:Hr; [thread_only I Hth Hpc Hm|].
     destruct (c_h cl) as [h|] eqn:Hh; [|thread_only I Hth Hpc Hm].
     g0_walk I Hth Hpc Hc (cl_mu (Some t) cl).
@@ -437,4 +440,22 @@ Proof.
   - cbn. rewrite upd_upd. unfold get_hook in Hx.
     rewrite (upd_const _ _ _ (hk_refs (h_refs hk + 1)) _ Hx). reflexivity.
   - cbn. rewrite (upd_app_l _ _ _ _ _ Hlt). rewrite (upd_const _ _ _ _ _ Hc). reflexivity.
+Qed.
+
+Lemma step_CWalk_end_state : forall g t th c cur hk g',
+  Inv g -> nth_error (threads g) t = Some th -> t_pc th = CWalk KState c cur ->
+  get_hook g cur = Some hk -> forwarded cur hk = false ->
+  step true g t = Some g' -> misuse g' = false -> Inv g'.
+Proof.
+  intros g t th c cur hk g' I Hth Hpc Hx Hf Hs Hm. unfold step in Hs. rewrite Hth, Hpc, Hx in Hs.
+  destruct (h_mu hk) eqn:Hmu; [discriminate|]. rewrite Hf in Hs. inversion Hs; subst g'; clear Hs.
+  destruct (cwalk_end_facts g t th _ c cur hk I Hth Hpc Hx Hmu Hf)
+    as (cl & Hc & Hch & Hcm & Hrel & Htg & R1 & Hd & Racc & Rcal & Rclo & Rs & Rc0).
+  assert (Hok : client_ok g (cl_mu None cl)) by (apply (inv_client g (invC g I) _ _ Hc)).
+  unfold cwalk_end in Hm |- *.
+  eapply (G1 g _ t th _ cur hk (hk_calls (h_calls hk + 1) hk) c cl (cl_mu None cl) I Hth); g1_side Hpc Hx Hc.
+  - unfold wtok; cbn; lia.
+  - unfold wcall; cbn; rewrite Hpc, Nat.eqb_refl. lia.
+  - cbn. rewrite Hd. destruct (h_refs hk =? 0) eqn:E; auto. lia.
+  - unfold wclose; cbn; rewrite Hpc. lia.
 Qed.
